@@ -1,0 +1,55 @@
+//go:build verif
+
+// Contracts for package main, property C08, part b: data-structure invariants behind the no-panic obligations
+// (comment-only; read by /verif/vcgo, build tag verif).
+package main
+
+// ---- set-once fields ----
+// requestContext.ctx is given in the composite literal of newMultiEpochHandler and never assigned again.
+//@ final requestContext.ctx
+// The handles of an Epoch are assigned by NewEpochFromConfig only (which builds the Epoch it returns); every later use reads them.
+//@ final Epoch.allCache Epoch.config Epoch.genesis Epoch.lassieFetcher Epoch.slotToCidIndex Epoch.sigToCidIndex Epoch.cidToOffsetAndSizeIndex Epoch.deprecated_cidToOffsetIndex Epoch.blocktimeindex in NewEpochFromConfig
+// The genesis container is built by one composite literal.
+//@ final GenesisContainer.Config
+// A parsed request is filled by its parser and only read afterwards.
+//@ final GetBlockRequest.Slot GetBlockRequest.Options in parseGetBlockRequest
+//@ final GetTransactionRequest.Signature GetTransactionRequest.Options in parseGetTransactionRequest
+// The index section of an epoch configuration is filled by the YAML/JSON loader and never assigned by the package.
+//@ final Config.Indexes
+
+// ---- a loaded epoch ----
+// validEpoch(e): what NewEpochFromConfig establishes for the Epoch it returns and what the read path relies on. Only set-once
+// fields are mentioned, so the fact survives every call made while a request is served.
+//   * the cache, the configuration, the slot-to-cid and sig-to-cid indexes exist;
+//   * an epoch served from a CAR (no lassie fetcher) has the cid-to-offset index its configuration selects
+//     ((*Epoch).FindOffsetAndSizeFromCid reads ser.config.IsDeprecatedIndexes() to pick one);
+//   * a genesis container holds a genesis config.
+// NOT part of it (cannot be kept across calls from here): blocktimeindex.validIndex(e.blocktimeindex) - the fields of
+// blocktimeindex.Index are written by (*Index).Set and are not set-once; see validBlocktime below.
+//@ spec func carIndexOK(e *Epoch) bool = ite(usesDeprecatedIndexes(e.config), e.deprecated_cidToOffsetIndex != nil, e.cidToOffsetAndSizeIndex != nil)
+//@ spec func validEpoch(e *Epoch) bool = e != nil && allocated(e) && e.allCache != nil && e.config != nil && allocated(e.config) && e.slotToCidIndex != nil && e.sigToCidIndex != nil && (e.lassieFetcher == nil ==> carIndexOK(e)) && (e.genesis != nil ==> allocated(e.genesis) && e.genesis.Config != nil)
+
+// validBlocktime(e): the slot-to-blocktime index of a loaded epoch, when present, is a well-formed index (capacity == len(values),
+// start/end inside it): established by blocktimeindex.FromFile/FromBytes (unmarshalBinary's contract), relied upon by (*Index).Get.
+//@ spec func validBlocktime(e *Epoch) bool = e.blocktimeindex != nil ==> blocktimeindex.validIndex(e.blocktimeindex)
+
+// every epoch of the set is a loaded epoch (extends validEpochSet of contracts_verif.go)
+//@ spec func validEpochs(m *MultiEpoch) bool = forall k uint64 :: has(m.epochs, k) ==> validEpoch(m.epochs[k]) && validBlocktime(m.epochs[k])
+
+// ---- lassie wrapper (Filecoin mode): a nil error comes with a store ----
+//@ func NewWrappedMemStore
+//@   ensures result != nil
+//@   noframe
+
+//@ func (*lassieWrapper) GetSubgraph
+//@   ensures result1 == nil ==> result0 != nil
+//@   noframe
+
+//@ func (*lassieWrapper) Fetch
+//@   noframe
+
+// ---- decoded transaction metadata ----
+// nonNilMeta(m): a metadata value handed around as `any` is nil or a NON-nil pointer to one of the three decoded formats
+// (solanatxmetaparsers.ParseAnyTransactionStatusMeta returns `&status` of the format that parsed, or (nil, err)): the type
+// switches / type assertions on it then never yield a typed nil pointer.
+//@ spec func nonNilMeta(m any) bool = (typeis(m, *confirmed_block.TransactionStatusMeta) ==> m.(*confirmed_block.TransactionStatusMeta) != nil)
